@@ -9,6 +9,9 @@ namespace created per call; generate_penalty picks quadratic_inequality exactly
 for conditions named 'inequality' and stacks pf = ptype(condition)(pf) for every
 pair (sum of terms by C15.b).  Round 3: the iteration-count closures of the two stacked penalty types agree
 with the family reference (shared with C15.a).
+Round 4: every recursive call of generate_penalty and every stacked term
+receives the caller's settings; both generators read tol / rel under their own
+names.
 NOT decided: values of the generated functions.
 """
 import ast
